@@ -1,0 +1,24 @@
+//go:build verif
+
+package batchrelease
+
+import (
+	"k8s.io/apimachinery/pkg/runtime"
+	"k8s.io/client-go/tools/record"
+	"sigs.k8s.io/controller-runtime/pkg/client"
+	"sigs.k8s.io/controller-runtime/pkg/handler"
+)
+
+// Verification hooks (build tag verif).
+
+func NewReconcilerForVerif(cli client.Client, scheme *runtime.Scheme, recorder record.EventRecorder) *BatchReleaseReconciler {
+	return &BatchReleaseReconciler{Client: cli, Scheme: scheme, recorder: recorder, executor: NewReleasePlanExecutor(cli, recorder)}
+}
+
+func NewPodEventHandlerForVerif(reader client.Reader) handler.EventHandler {
+	return &podEventHandler{Reader: reader}
+}
+
+func NewWorkloadEventHandlerForVerif(reader client.Reader) handler.EventHandler {
+	return &workloadEventHandler{Reader: reader}
+}
